@@ -94,6 +94,28 @@ def crafted_start_effects():
                 pr.add_action(a)
                 pr.add_goal(done)
                 out.append(pr)
+    # end effects whose AMOUNT reads a fluent the action changes at start (one or two cumulative end effects on a fluent untouched at start):
+    # the goal pins the accumulated value, for every value any reading of the amount (before / after the start effect) could produce
+    from unified_planning.shortcuts import Equals
+    for n_end in (1, 2):
+        for kind in ("inc", "dec"):
+            for goal_level in (2, 4, 5, 7, 8, 13, -2, -4, -5, -7, -8, -13):
+                if (goal_level > 0) != (kind == "inc"):
+                    continue
+                pr = Problem(f"end_amount_reads_start_effect_{n_end}_{kind}_{goal_level}")
+                rate, level = Fluent("rate", IntType(0, 40)), Fluent("level", IntType(-40, 40))
+                pr.add_fluent(rate, default_initial_value=1)
+                pr.add_fluent(level, default_initial_value=0)
+                a = DurativeAction("load")
+                a.set_fixed_duration(2)
+                a.add_increase_effect(StartTiming(), rate, 3)
+                add = a.add_increase_effect if kind == "inc" else a.add_decrease_effect
+                add(EndTiming(), level, rate)
+                if n_end == 2:
+                    add(EndTiming(), level, 1)
+                pr.add_action(a)
+                pr.add_goal(Equals(level, goal_level))
+                out.append(pr)
     return out
 
 
